@@ -1,6 +1,7 @@
 package main
 
 import (
+	"time"
 	"fmt"
 	"reflect"
 )
@@ -400,6 +401,64 @@ func boundarySweep(c *Ctx, small bool, emit func(*TypeCase, reflect.Value, strin
 		ov := reflect.New(tc.T).Elem()
 		ov.Set(reflect.ValueOf(o))
 		emit(tc, ov, "boundary-count")
+	}
+	// instants that are special to the time codecs, at every position a time can sit, in both time
+	// formats: the zero time, the Unix epoch (all fields zero on the wire) and its neighbours, the
+	// limits of 32-bit seconds, of RFC 3339 years and of UnixNano, every nanosecond byte-length boundary
+	secs := []int64{-62135596800, -62135596799, -1, 0, 1, -2147483648, 2147483647, 2147483648, 4294967296, -9223372037, 9223372036, 253402300799, 253402300800, 1 << 40}
+	nss := []int64{0, 1, 127, 128, 16383, 16384, 999999999}
+	k := 0
+	for _, cfg := range []Cfg{{}, {ProtoTime: true}} {
+		tc := newTypeCase(reflect.TypeOf(Times{}), cfg)
+		for _, sec := range secs {
+			for _, ns := range nss {
+				if sec != 0 && sec != -62135596800 && ns != 0 && (k+int(ns))%3 != 0 {
+					k++
+					continue // the nanosecond sweep in full only at the two instants whose seconds field is special
+				}
+				k++
+				t := time.Unix(sec, ns).UTC()
+				if sec == -62135596800 && ns == 0 {
+					t = time.Time{}
+				}
+				v := reflect.New(tc.T).Elem()
+				fillTimes(v, t)
+				emit(tc, v, "special-times")
+			}
+		}
+	}
+}
+
+// fillTimes puts t wherever a time.Time sits in v (fields, pointers, slice elements, map values)
+func fillTimes(v reflect.Value, t time.Time) {
+	switch {
+	case v.Type() == tTime:
+		v.Set(reflect.ValueOf(t))
+	case v.Kind() == reflect.Struct:
+		for i := 0; i < v.NumField(); i++ {
+			if v.Type().Field(i).IsExported() {
+				fillTimes(v.Field(i), t)
+			}
+		}
+	case v.Kind() == reflect.Ptr:
+		p := reflect.New(v.Type().Elem())
+		fillTimes(p.Elem(), t)
+		v.Set(p)
+	case v.Kind() == reflect.Slice && v.Type() != tBytes:
+		s := reflect.MakeSlice(v.Type(), 2, 2)
+		fillTimes(s.Index(0), t)
+		fillTimes(s.Index(1), t)
+		v.Set(s)
+	case v.Kind() == reflect.Map:
+		m := reflect.MakeMap(v.Type())
+		e := reflect.New(v.Type().Elem()).Elem()
+		fillTimes(e, t)
+		k := reflect.New(v.Type().Key()).Elem()
+		if k.Kind() == reflect.String {
+			k.SetString("k")
+		}
+		m.SetMapIndex(k, e)
+		v.Set(m)
 	}
 }
 
